@@ -32,10 +32,12 @@ type vec struct {
 	Bytes  hx.B      `json:"bytes"`
 	Rroff  []int     `json:"rroff"`
 	Lenmsg int       `json:"lenmsg"`
+	Refuse bool      `json:"refuse"` // AMBIG (spec): Pack() may refuse this value (a type list out of order) instead of packing it
 	Norm   *wire.Msg `json:"norm,omitempty"`
 }
 
 var L *wire.Layout
+var refused int // vectors the packer refused where the specification admits a refusal
 
 func main() {
 	if len(os.Args) < 4 {
@@ -100,6 +102,9 @@ func replay(path string) {
 	}
 	sort.Strings(missing)
 	sum.Note("registry_types_without_layout", missing)
+	if refused > 0 {
+		sum.Note("unordered_lists_refused_by_pack", refused)
+	}
 	sum.Note("registry_types", len(dns.TypeToRR)-1) // minus the private type registered by the harness
 	sum.Print()
 }
@@ -219,7 +224,9 @@ func one(v *vec, sum *hx.Summary) {
 	packed := false
 	if inex == "" {
 		got, err := m.Pack()
-		if err != nil {
+		if err != nil && v.Refuse {
+			refused++ // admitted: refused, not mis-encoded
+		} else if err != nil {
 			mis("wire/pack-error:"+key, fmt.Sprintf("Pack(): %v", err))
 		} else if !bytes.Equal(got, exp) {
 			mis("wire/pack-octets:"+keyAt(v, got, exp), fmt.Sprintf("Pack() = %.300x, spec %.300x", got, exp))
